@@ -103,7 +103,7 @@ func solveAll(obls []*Oblig, budget int) {
 			if o.Expect == "sat" && b > 20 {
 				b = 20
 			}
-			o.Res = solve2(o.Name, o.Script, o.Alt, b)
+			o.Res = solveOblig(o, b)
 		}()
 	}
 	wg.Wait()
